@@ -29,6 +29,7 @@ from . import c11_tags
 from . import c11_long
 from . import c11_nest
 from . import c11_ctx
+from . import c11_labels
 
 INC = os.path.join(common.REPO, "include")
 
@@ -213,9 +214,15 @@ class Gen:
         self.macros = []      # (name, params, defaults, locals, body(list of nodes), gs)
         self.enclosing = []   # upper-cased iteration variable names of the enclosing constructs (never reused inside)
         self.ctrl = False     # this program has string / character constants with control characters (TAB, 01h..1Fh) in its bodies
+        self.mdepth = 0       # number of macro bodies we are in
+        self.labmode = False  # label-heavy program: many private labels, deep nests, references from inner bodies to labels further out
+        self.visible = []     # per lexically enclosing body (outermost first): the labels defined in it BEFORE the construct we are in
+        self.global_labels = set()   # labels of GLOBALSYMBOLS constructs (they are global symbols)
+        self.all_labels = []
         self.stats = dict(rept=0, irp=0, irpn=0, irpc=0, call=0, exitm=0, line=0, labels=0, globalsymbols=0, keyword=0, default=0,
                           excess=0, empty_arg=0, zero_iter=0, ragged=0, allargs=0, argcount=0, maxdepth=0, substr_names=0, arg_is_param_name=0,
-                          ctrl_in_string=0)
+                          ctrl_in_string=0, outer_ref=0, outer_ref_1=0, outer_ref_2=0, outer_ref_3plus=0, global_namesake=0,
+                          global_namesake_ref=0)
 
     def fresh(self):
         self.nid += 1
@@ -248,7 +255,10 @@ class Gen:
         n = rng.randrange(1, 5)
         for _ in range(n):
             r = rng.random()
-            if r < 0.5 or depth >= 3:
+            maxd = 4 if self.labmode else 3          # label-heavy programs: up to 4 bodies inside each other (counts are small there)
+            if self.labmode and depth < maxd and r < 0.5 and rng.random() < 0.45:
+                r = 0.9           # ... and they nest more often
+            if r < 0.5 or depth >= maxd:
                 nodes.append(("L", self.data_line(scope_vars, locals_out, in_macro)))
                 self.stats["line"] += 1
             elif r < 0.58 and allow_exitm:
@@ -256,19 +266,37 @@ class Gen:
                 self.stats["exitm"] += 1
                 nodes.append(("L", self.data_line(scope_vars, locals_out, in_macro)))
             else:
-                nodes.append(self.construct(scope_vars, depth + 1))
+                # the nested body may refer to the labels this body has defined so far (and to those of the bodies further out):
+                # "labels defined in macros are local" - to the expansion, and its nested repetition bodies are part of its text
+                self.visible.append(list(locals_out) if locals_out is not None else [])
+                try:
+                    nodes.append(self.construct(scope_vars, depth + 1))
+                finally:
+                    self.visible.pop()
         return nodes
 
     def data_line(self, scope_vars, locals_out, in_macro):
         rng = self.rng
         r = rng.random()
         vs = list(scope_vars)
-        if r < 0.15 and locals_out is not None:
+        if self.labmode and r >= 0.40:
+            r = rng.random() * 0.40          # label-heavy programs: mostly label definitions and references
+        if (r < 0.15 or (self.labmode and r < 0.20 and not locals_out)) and locals_out is not None:
             self.nlab += 1
             lab = "LQ%d" % self.nlab
             locals_out.append(lab)
+            self.all_labels.append(lab)
             self.stats["labels"] += 1
             return "%s: db (%s-$)&255,(%s>>8)&255" % (lab, lab, lab)
+        outer = [(len(self.visible) - i, lab) for i, ls in enumerate(self.visible) for lab in ls]
+        if outer and rng.random() < (0.5 if self.labmode else 0.12):
+            # reference to a label defined 1, 2, 3 ... bodies further out (defined before the construct we are in)
+            far = max(d for d, _ in outer)
+            cand = [x for x in outer if x[0] == far] if rng.random() < 0.5 else outer
+            d, lab = rng.choice(cand)
+            self.stats["outer_ref"] += 1
+            self.stats["outer_ref_%s" % (d if d < 3 else "3plus")] += 1
+            return rng.choice([" db %s&255", " db (%s>>8)&255,%s&255", " db 0+(%s&255),7"]).replace("%s", lab)
         if r < 0.25 and locals_out:
             lab = rng.choice(locals_out)
             return " db %s&255" % lab
@@ -308,6 +336,8 @@ class Gen:
         self.stats["maxdepth"] = max(self.stats["maxdepth"], depth)
         avoid = {v.upper() for v in scope_vars} | {"A", "B"}
         kind = rng.choice(["R", "R", "I", "I", "N", "C", "M", "M", "M"])
+        if self.labmode and (self.mdepth >= 1 or depth > 1) and kind == "M":
+            kind = rng.choice(["R", "I", "N", "C"])     # label-heavy programs: macros are called from the top level only (size)
         cid = self.fresh()
         gs = rng.random() < 0.25 and depth == 1     # GLOBALSYMBOLS only where the construct is expanded exactly once
         mark = len(self.enclosing)
@@ -319,7 +349,7 @@ class Gen:
     def construct2(self, kind, cid, gs, scope_vars, depth, avoid):
         rng = self.rng
         if kind == "R":
-            n = rng.choice([0, 1, 1, 2, 3, 5, 40]) if depth <= 1 else rng.choice([0, 1, 2, 3])
+            n = rng.choice([0, 1, 1, 2, 3, 5, 40]) if depth <= 1 and not self.labmode else rng.choice([0, 1, 2, 3])
             if gs:
                 n = 1
             locs = []
@@ -329,7 +359,7 @@ class Gen:
             return self.finish_gs(("R", cid, n, locs, body, gs))
         if kind == "I":
             (var,) = self.var_names(1, avoid)
-            na = rng.choice([1, 1, 2, 3, 4, 7]) if not gs else 1
+            na = (rng.choice([1, 1, 2, 3, 4, 7]) if not self.labmode else rng.choice([1, 2, 3])) if not gs else 1
             args = [self.arg_for(scope_vars) for _ in range(na)]
             locs = []
             # no EXITM directly inside IRP/IRPN: known finding exitm-in-irp-crash (probed separately)
@@ -339,7 +369,7 @@ class Gen:
         if kind == "N":
             k = rng.choice([1, 2, 2, 3, 4])
             vars_ = self.var_names(k, avoid)
-            na = rng.randrange(k, 3 * k + 2) if not gs else k
+            na = (rng.randrange(k, 3 * k + 2) if not self.labmode else rng.randrange(k, 2 * k + 1)) if not gs else k
             args = [self.arg_for(scope_vars) for _ in range(na)]
             if na % k:
                 self.stats["ragged"] += 1
@@ -352,7 +382,7 @@ class Gen:
         if kind == "C":
             (var,) = self.var_names(1, avoid)
             # first character a digit: the string can never be an enclosing variable's name (strings are not protected)
-            chars = rng.choice("0189") + "".join(rng.choice("abcXYZ0189") for _ in range(rng.randrange(0, 5) if not gs else 0))
+            chars = rng.choice("0189") + "".join(rng.choice("abcXYZ0189") for _ in range(rng.randrange(0, 3 if self.labmode else 5) if not gs else 0))
             locs = []
             body = [("L", " db '%s',\"<%s>\"" % (var, var))]
             body += self.body_lines(scope_vars, depth, locs, True)
@@ -365,8 +395,12 @@ class Gen:
         info = dict(numeric_all=True, uses_all=False, uses_cnt=False)
         locs = []
         saved, self.enclosing = self.enclosing, []
+        saved_vis, self.visible = self.visible, []      # a macro body is text of its own: the caller's labels are not referred to
+        self.mdepth += 1
         body = self.body_lines(params, 1 if depth < 3 else 3, locs, True, in_macro=info)
+        self.mdepth -= 1
         self.enclosing = saved
+        self.visible = saved_vis
         # arguments of this call
         call = []
         npos = rng.randrange(0, np_ + 1) if rng.random() < 0.5 else np_
@@ -404,11 +438,14 @@ class Gen:
         self.macros.append((name, params, defaults, body, gs))
         self.stats["call"] += 1
         self.stats["globalsymbols"] += int(gs)
+        if gs:
+            self.global_labels.update(locs)
         return ("M", cid, name, params, defaults, [] if gs else locs, body, call, gs)
 
     def finish_gs(self, node):
         if node[-1]:
             self.stats["globalsymbols"] += 1
+            self.global_labels.update(node[3] if node[0] == "R" else node[-3])
             # with GLOBALSYMBOLS the labels keep their names: the locals list of the spec is empty
             node = node[:-3] + ([], node[-2], True) if node[0] != "R" else ("R", node[1], node[2], [], node[4], True)
         return node
@@ -502,12 +539,29 @@ def build_program(top, macros, cs, rng):
 def gen_program(rng, cs):
     g = Gen(rng, cs)
     g.ctrl = rng.random() < 0.06
+    g.labmode = rng.random() < 0.12
     top = []
     for _ in range(rng.randrange(1, 5)):
         if rng.random() < 0.25:
             top.append(("L", " db %d" % rng.randrange(256)))
         else:
             top.append(g.construct([], 1))
+    # global symbols with the names of private labels (defined in front of or behind the constructs, referenced outside of them): inside
+    # an expansion the name means the expansion's label, outside it means the global symbol
+    priv = [l for l in g.all_labels if l not in g.global_labels]
+    if priv and rng.random() < (0.6 if g.labmode else 0.2):
+        rng.shuffle(priv)
+        for lab in priv[:rng.randrange(1, 4)]:
+            how = rng.randrange(3)
+            d = "%s equ %d" % (lab, rng.randrange(1, 250)) if how == 0 else "%s: db %d" % (lab, rng.randrange(256))
+            if how == 2:
+                top.append(("L", d))
+            else:
+                top.insert(0, ("L", d))
+            g.stats["global_namesake"] += 1
+            if rng.random() < 0.7:
+                top.append(("L", " db %s&255" % lab))
+                g.stats["global_namesake_ref"] += 1
     # a global label defined inside a GLOBALSYMBOLS construct is referenced from outside
     src, enc, hdr = build_program(top, g.macros, cs, rng)
     return src, enc, hdr, g.stats
@@ -1066,6 +1120,14 @@ def run(args):
         evaluations += ev4
         distinct |= distinct4
 
+        # ---------------- labels of enclosing expansions seen from bodies nested 1..5 levels further in (c11_labels.py)
+        t0 = time.time()
+        ev5, distinct5 = c11_labels.run_stream(args, asl, canon_p, bdir, wd, drv_ok, dist, spec_fail, corr_fail, proof_problems, samples)
+        evaluations += ev5
+        distinct |= distinct5
+        if "labels" in dist:
+            dist["labels"]["wall_s"] = round(time.time() - t0, 1)
+
     res.coverage = common.proof_coverage(audit, "C11", [
         "translate/tables.py MacroConsts (ArgCntMax, implicit parameter names via compiled dumper over asmdef.h)",
         "correspondence: real asl -P output vs Model/MacroCall.lean on generated macro bodies (differential test)",
@@ -1086,6 +1148,10 @@ def run(args):
         "and file system for which it exists -, C11_ctx_include_restores, C11_ctx_curr_inv, C11_ctx_label_construct_independent, C11_ctx_transparent): the "
         "model's code image is compared with the real code file (driver c11ctx), the SPEC's hand expansion is assembled by the real asl; the quirk flag "
         "inclResetsLabel is probed on the real binary",
+        "labels of enclosing expansions (Model/MacroLabels.lean: handle stack, FindLocNode over the whole chain, local before global, two passes; "
+        "Props/C11_Labels.lean: C11_labels_found_at_any_depth, C11_labels_local_before_global, C11_labels_nested_sees_outer, C11_labels_stack_restored): "
+        "the model's code image is compared with the real code (driver c11lab); SPEC Spec/MacroLabels.lean (hand expansion with renamed labels) is "
+        "executable and judges the real code, its expansion is also assembled by the real asl; model = spec for all programs is NOT proved (run, not proved)",
         "the line buffer (as_dynstr, ReplaceToken's growth rule) is not modelled: the token layer model works on unbounded lists, which is what the "
         "real code does on the unchanged tree for every length the long-line stream generates"])
     res.coverage.update(
@@ -1106,7 +1172,12 @@ def run(args):
              "working directory; INCLUDE/BINCLUDE with bare / relative / .. / absolute names at file level and inside MACRO/REPT/IRP/IRPN/IRPC/WHILE bodies, "
              "nested, in included files; labels on the opening line of every construct kind or alone on the line before, at odd and even addresses, 68000 / "
              "MSP430 / TMS9900 / 6809 / H8/300 / Z80 with PADDING default, ON, OFF, first body statement word, instruction or byte, label referenced "
-             "afterwards), distinct by the program's encoding",
+             "afterwards), distinct by the program's encoding; "
+             "construct stream, label-heavy programs (12 %): nests up to 4 bodies deep whose lines refer to labels defined 1, 2, 3 bodies further out, global "
+             "symbols with the names of private labels in front of / behind the constructs; labels stream: one program per evaluation (one-byte label / "
+             "reference statements in MACRO/REPT/IRP/IRPN/IRPC/WHILE bodies nested 1..5 deep, 0..3 iterations, GLOBALSYMBOLS, macros called twice, references "
+             "to labels 0..4 bodies further out in front of and behind the reference, names defined again in between, global namesakes, names only a sibling "
+             "body defines, undefined names), distinct by the program's encoding",
         samples=samples, distribution=dist)
     res.assumptions = ["the hand expansion of private labels renames them with a suffix per expansion instance (construct id, iteration)",
                        "in case-insensitive mode the harness upper-cases arguments outside quotes before handing them to the model (UpString is not modelled)",
@@ -1123,6 +1194,9 @@ def run(args):
                        "included definitions file) and the renaming of private labels per instance in the hand expansion are done by the harness; the order in which "
                        "several -i directories are searched is taken as written (the manual does not say); a file named with a path specification that only the -i list "
                        "or the working directory would find has no hand expansion by the manual's rule - only model and real are compared there",
+                       "labels stream: a statement is reduced to one byte that defines a label or lays down the value of a name (Spec/MacroLabels.lean Item); the "
+                       "rendering to source text (construct headers, WHILE counters, macro definitions in front) is done by the harness; a reference inside a macro "
+                       "body to a label of the body the macro was called from is not generated (the manual leaves it open)",
                        "nest stream: an error message whose position prefix fills asl's 1024-byte buffer loses its text; such a line is counted as the refusal "
                        "(the only error that happens that deep in the generated programs)"]
     return common.conclude(res, proof_problems, spec_fail, corr_fail, evaluations)
